@@ -2,8 +2,10 @@ import QcelVerif.Lemmas.Formula
 /-!
 # C15 (formula part) — property theorems about `Model/Formula.lean`
 
-The theorems are about the (element, count) token list `tokens`; the string rendering and the
-regex-based re-parsing in `order_molecular_formula` are executable model + differential only.
+The theorems of THIS file are about the (element, count) token list `tokens`.  The string
+rendering and the regex-based re-parsing in `order_molecular_formula` are proved, on the same
+executable model, in `Props/C15FormulaStr.lean` (parse ∘ render, idempotence and conversion at
+string level) and `Props/C15Symbols.lean` (every periodic-table symbol is well formed).
 `le` is the key order (`strLe` = code-point order in the driver); only the stated order axioms
 are used.
 -/
